@@ -176,7 +176,7 @@ Print Assumptions C20_sanitize_spec.
    no secret-bearing parameter and the key is not a complete credential".
    Proved: all call sites except CreatePARSession (forms) and except the OpenID Connect session
    methods (keys); the exceptions are refuted below (findings par_stores_raw_form,
-   oidc_session_keyed_by_full_code, oidc_device_delete_full_code). *)
+   oidc_session_keyed_by_full_code; the device flow's deletion by the complete device code was repaired). *)
 Theorem C20_stored_forms_secret_free_partial : forall m src s input f k vs,
   site_of m src = Some s -> m <> "CreatePARSession" ->
   expected_form s input = Some f -> In (k, vs) f -> secret_param src k = false.
@@ -193,10 +193,10 @@ Theorem C20_oidc_session_keyed_by_full_code_refuted :
 Proof. exact oidc_session_keyed_by_full_code_refuted. Qed.
 Print Assumptions C20_oidc_session_keyed_by_full_code_refuted.
 
-Theorem C20_oidc_device_delete_full_code_refuted :
-  exists s, site_of "DeleteOpenIDConnectSession" ETokenDevice = Some s /\ st_key s = KeyComplete "device_code".
-Proof. exact oidc_device_delete_full_code_refuted. Qed.
-Print Assumptions C20_oidc_device_delete_full_code_refuted.
+Theorem C20_oidc_device_session_keyed_by_signature : forall m s,
+  In m oidc_methods -> site_of m ETokenDevice = Some s -> st_key s = KeyOpaque.
+Proof. exact oidc_device_session_keyed_by_signature. Qed.
+Print Assumptions C20_oidc_device_session_keyed_by_signature.
 
 Theorem C20_par_stores_raw_form_refuted :
   exists s input f, site_of "CreatePARSession" EPar = Some s /\ expected_form s input = Some f /\
